@@ -1,7 +1,7 @@
 SPECIFICATION HSpec
 CONSTANTS
   PathRule = "documented"
-  FocusSets = {{"attestationdata", "attestingnodes", "aggregateattestation", "beaconblockproposal", "synccommitteecontribution", "beaconblockroot", "signedbeaconblock", "beaconblockheader", "builderbid", "submitter", "eth2client", "multiclient", "scheduler", "graffiti", "validatorsmanager", "cache"}}
+  FocusSets = {{"attestationdata", "attestingnodes", "aggregateattestation", "beaconblockproposal", "synccommitteecontribution", "beaconblockroot", "signedbeaconblock", "beaconblockheader", "builderbid", "submitter", "eth2client", "multiclient", "scheduler", "graffiti", "validatorsmanager", "cache", "beaconblockproposer", "attester", "attestationaggregator", "beaconcommitteesubscriber"}}
   LatticeDuties = {"aggregateattestation", "attestation", "beaconcommitteesubscription", "proposal", "proposalpreparation", "synccommitteecontribution", "synccommitteemessage", "synccommitteesubscription"}
   Nodes = {"n1", "n2", "n3", "n4"}
   MaxStarts = 99
